@@ -17,4 +17,4 @@ print("mutated", f, "(%d match(es), first replaced)" % n)
 PY
 cd "$(dirname "$0")/.."
 VERIF_REPO=/tmp/xgi_mut ./check "$pid" --tier quick | grep -E "^VIOLATION|^C[0-9]+ |HARNESS" | cut -c1-200 | head -${MUT_LINES:-6}
-rm -rf /tmp/xgi_mut replays/found
+rm -rf /tmp/xgi_mut
